@@ -21,15 +21,15 @@ fn modify(rng: &mut R, t: &Transaction, which: usize) -> Option<(Transaction, bo
     let r = match which {
         0 => { m.version = m.version.wrapping_add(1); (false, "version") }
         1 => { m.lock_time = elements::LockTime::from_consensus(m.lock_time.to_consensus_u32() ^ 1); (false, "lock_time") }
-        2 if ni > 0 => { let i = rng.gen_range(0..ni); if m.input[i].is_coinbase() { return None; } m.input[i].previous_output.vout ^= 1; if m.input[i].previous_output.vout == (1 << 30) - 1 { return None; } (false, "prevout.vout") }
+        2 if ni > 0 => { let i = rng.gen_range(0..ni); if m.input[i].is_coinbase() || m.input[i].previous_output.vout == 0xffff_ffff { return None; } m.input[i].previous_output.vout ^= 1; if m.input[i].previous_output.vout == (1 << 30) - 1 { return None; } (false, "prevout.vout") }
         3 if ni > 0 => { let i = rng.gen_range(0..ni); let mut b = m.input[i].previous_output.txid.to_byte_array(); b[rng.gen_range(0..32)] ^= 0x10; m.input[i].previous_output.txid = elements::Txid::from_byte_array(b); (false, "prevout.txid") }
         4 if ni > 0 => { let i = rng.gen_range(0..ni); let mut b = m.input[i].script_sig.to_bytes(); b.push(0x51); m.input[i].script_sig = b.into(); (false, "script_sig") }
         5 if ni > 0 => { let i = rng.gen_range(0..ni); m.input[i].sequence = elements::Sequence(m.input[i].sequence.0 ^ 0x80); (false, "sequence") }
-        6 if ni > 0 => { let i = rng.gen_range(0..ni); if m.input[i].is_coinbase() || m.input[i].previous_output.vout == (1 << 30) - 1 { return None; } m.input[i].is_pegin = !m.input[i].is_pegin; (false, "is_pegin flag") }
+        6 if ni > 0 => { let i = rng.gen_range(0..ni); if m.input[i].is_coinbase() || m.input[i].previous_output.vout == (1 << 30) - 1 || m.input[i].previous_output.vout == 0xffff_ffff { return None; } m.input[i].is_pegin = !m.input[i].is_pegin; (false, "is_pegin flag") }
         7 if ni > 0 => { let i = rng.gen_range(0..ni); if !m.input[i].has_issuance() { return None; } m.input[i].asset_issuance.asset_entropy[3] ^= 1; (false, "issuance.entropy") }
         8 if ni > 0 => { let i = rng.gen_range(0..ni); if !m.input[i].has_issuance() { return None; } m.input[i].asset_issuance.amount = match m.input[i].asset_issuance.amount { elements::confidential::Value::Explicit(x) => elements::confidential::Value::Explicit(x ^ 1), _ => elements::confidential::Value::Explicit(77) }; (false, "issuance.amount") }
         9 if ni > 0 => { let i = rng.gen_range(0..ni); if !m.input[i].has_issuance() { return None; } m.input[i].asset_issuance.asset_blinding_nonce = gen::tweak(rng); (false, "issuance.nonce") }
-        10 if ni > 0 => { let i = rng.gen_range(0..ni); if m.input[i].has_issuance() || m.input[i].is_coinbase() { return None; } m.input[i].asset_issuance = gen::issuance(rng, false); (false, "issuance added") }
+        10 if ni > 0 => { let i = rng.gen_range(0..ni); if m.input[i].has_issuance() || m.input[i].is_coinbase() || m.input[i].previous_output.vout == 0xffff_ffff || (m.input[i].previous_output.vout == (1 << 30) - 1 && m.input[i].is_pegin) { return None; } m.input[i].asset_issuance = gen::issuance(rng, false); (false, "issuance added") }
         11 if no > 0 => { let i = rng.gen_range(0..no); let old = m.output[i].asset; loop { m.output[i].asset = gen::asset(rng); if m.output[i].asset != old { break; } } (false, "output.asset") }
         12 if no > 0 => { let i = rng.gen_range(0..no); let old = m.output[i].value; loop { m.output[i].value = gen::value(rng); if m.output[i].value != old { break; } } (false, "output.value") }
         13 if no > 0 => { let i = rng.gen_range(0..no); let old = m.output[i].nonce; loop { m.output[i].nonce = gen::nonce(rng); if m.output[i].nonce != old { break; } } (false, "output.nonce") }
